@@ -232,6 +232,18 @@ def check_doc(mon, lab, lang, kws, rng, layout, monitor="parse.faithful", force_
         return
     diffs = cmp_feature(a, m, lines, lang)
     mon.check(monitor, not diffs, lambda: dict(case=case, differences=diffs[:6]))
+    if via_file and getattr(m, "parser", None) is not None:
+        # the parser object stays with the feature (context.execute_steps() uses feature.parser.parse_steps): text in the
+        # language of the file's '# language:' header must still be understood by it after the parse
+        g, w, t = kws["given"][-1], kws["when"][-1], kws["then"][-1]
+        sub = u"%ssub one\n%ssub two\n%ssub three\n" % (g, w, t)
+        try:
+            steps = m.parser.parse_steps(sub)
+            got = [(st.step_type, st.name) for st in steps]
+            mon.check("reuse.feature_parser_keeps_header_language", got == [("given", "sub one"), ("when", "sub two"), ("then", "sub three")],
+                      lambda: dict(lang=lang, sub_steps=sub, got=got))
+        except Exception as ex:
+            mon.check("reuse.feature_parser_keeps_header_language", False, dict(lang=lang, sub_steps=sub, error=repr(ex)))
     if sample:
         mon.sample({"language": lang, "text": text})
 
